@@ -323,8 +323,8 @@ func (u *Upstream) run(isResume bool) error {
 	defer cancel()
 	eg, ctx := errgroup.WithContext(ctx)
 	eg.Go(func() error {
-		defer u.eventDispatcher.cond.Broadcast()
-		defer u.state.cond.Broadcast()
+		defer broadcastLocked(u.eventDispatcher.cond)
+		defer broadcastLocked(u.state.cond)
 		<-ctx.Done()
 		return nil
 	})
